@@ -11,4 +11,5 @@ import (
 	_ "verifharness/internal/props/c12"
 	_ "verifharness/internal/props/c13"
 	_ "verifharness/internal/props/c18"
+	_ "verifharness/internal/props/c20"
 )
